@@ -9,6 +9,7 @@ mod c09;
 mod c18;
 mod staking;
 mod chain;
+mod c17;
 
 pub fn run(ctx: &Ctx) -> Option<Report> {
     Some(match ctx.prop.as_str() {
@@ -16,6 +17,7 @@ pub fn run(ctx: &Ctx) -> Option<Report> {
         "C07" => c07::run(ctx),
         "C09" => c09::run(ctx),
         "C18" => c18::run(ctx),
+        "C17" => c17::run(ctx),
         "C14" | "C15" | "C16" => staking::run(ctx),
         "C01" | "C02" | "C03" | "C04" | "C05" | "C08" | "C10" | "C11" | "C12" | "C13" => chain::run(ctx),
         _ => return None,
